@@ -12,7 +12,7 @@ if [ "$ID" = replay ]; then
   P=$(python3 -c "import json,sys;print(json.load(open(sys.argv[1]))['property'])" "$F") || exit 2
   [ "$P" = C05 ] && MODE=race
   B=$("$VERIF/scripts/build.sh" $MODE) || exit 2
-  GORACE="halt_on_error=0 history_size=7" exec "$B/lssim" replay "$F"
+  exec "$B/lssim" replay "$F"
 fi
 B=$("$VERIF/scripts/build.sh" $MODE) || exit 2
 RACE=(); [ $MODE = race ] && RACE=(-race)
